@@ -85,6 +85,7 @@ fn one_hash(idx: usize, seed: u64, local_pk: secp256k1::PublicKey, cfg: &SimCfg,
             metadata,
             raw_payload_hex: None,
             label,
+            gate: Gate::None,
         });
     }
     (info, htlcs)
@@ -268,10 +269,10 @@ pub fn run_pair(st: &mut C14Stats, shape: &BShape, script: &Script, fp: (&'stati
         _ => (PayOutcome::Complete, false),
     };
     // solo
-    let solo = run_one(RunOpts { seed, profile: Profile::Mixed, thorough: false, log_events: false, script: Some(script.clone()), plan_override: Some(Box::new(plan(false, a_shape.clone(), shape.clone(), seed_a, seed_b))) });
+    let solo = run_one(RunOpts { seed, profile: Profile::Mixed, thorough: false, log_events: false, script: Some(script.clone()), plan_override: Some(Box::new(plan(false, a_shape.clone(), shape.clone(), seed_a, seed_b))), target: None });
     let mut sc2 = script.clone();
     sc2.freeze = Some(Freeze { hidx: 0, method: fp.0, nth: fp.1, own_outcome, own_before });
-    let duo = run_one(RunOpts { seed, profile: Profile::Mixed, thorough: false, log_events: false, script: Some(sc2), plan_override: Some(Box::new(plan(true, a_shape, shape.clone(), seed_a, seed_b))) });
+    let duo = run_one(RunOpts { seed, profile: Profile::Mixed, thorough: false, log_events: false, script: Some(sc2), plan_override: Some(Box::new(plan(true, a_shape, shape.clone(), seed_a, seed_b))), target: None });
     st.pairs += 1;
     let b_hex = solo.hash_hex[0].clone();
     let a_hex = duo.hash_hex[0].clone();
